@@ -25,7 +25,41 @@ from asl.values import USERISH, roles_of_annotation
 from . import ownership
 from .common import real_units
 
-NOT_APPLICABLE = "check under construction in this revision (R18.3-R18.5 not wired yet); see DESIGN.md section 4"
+
+class _Relabel:
+    """Run a rule shared with another property under a C18 rule id."""
+
+    def __init__(self, ctx, rid, only=None):
+        self._ctx, self._rid, self._only = ctx, rid, only
+
+    def __getattr__(self, name):
+        return getattr(self._ctx, name)
+
+    def _take(self, rule):
+        return self._only is None or any(rule.startswith(o) for o in self._only)
+
+    def ok(self, rule, *a, **k):
+        if self._take(rule):
+            return self._ctx.ok(self._rid, *a, **k)
+
+    def fail(self, rule, *a, **k):
+        if self._take(rule):
+            return self._ctx.fail(self._rid, *a, **k)
+
+    def check(self, cond, rule, *a, **k):
+        if self._take(rule):
+            return self._ctx.check(cond, self._rid, *a, **k)
+        return cond
+
+    def rule(self, *a, **k):
+        return None
+
+    def floor(self, *a, **k):
+        return None
+
+    def assume(self, *a, **k):
+        return None
+
 LEVEL = {
     "decided": "C18: at every suspension point of every library coroutine/async generator (R18.1) the "
                "exceptional continuation closes every iterable parameter still owed a close; (R18.2) user locks are "
@@ -48,6 +82,9 @@ LOCK_METHODS = {"__aenter__", "__aexit__", "__enter__", "__exit__", "acquire", "
 def run(ctx) -> None:
     ctx.rule("R18.1", "suspension nodes while an iterable parameter is owed a close are covered by cleanup")
     ctx.rule("R18.2", "user locks are only used as `async with` context expressions")
+    ctx.rule("R18.3", "no cache / cached-property store on the exceptional successor of the awaited user call (R11.4, R12.2)")
+    ctx.rule("R18.4", "ExitStack unwind: BaseException caught per callback, unwinding continues, exception re-raised (R14.2)")
+    ctx.rule("R18.5", "no handler can swallow or replace a thrown-in BaseException; cleanup never masks (R06.1-R06.3)")
     ctx.assume("cancellation is delivered as an exception thrown in at a suspension point")
     for unit, pname, src in ownership.iterable_params(ctx):
         ctx.count("iterable_params")
@@ -55,10 +92,9 @@ def run(ctx) -> None:
     r18_2(ctx)
     ctx.floor("iterable_params", 30)
     ctx.floor("lock_async_with_sites", 2)
-    for name in ("r18_3", "r18_4", "r18_5"):
-        fn = globals().get(name)
-        if fn is not None:
-            fn(ctx)
+    r18_3(ctx)
+    r18_4(ctx)
+    r18_5(ctx)
 
 
 def r18_2(ctx) -> None:
@@ -93,3 +129,28 @@ def _is_lock_src(ctx, src: str) -> bool:
         if p.arg == pname:
             return "ACM" in roles_of_annotation(p.annotation)
     return False
+
+
+def r18_3(ctx) -> None:
+    from . import c11, c12
+    from .lru import CLASSES, LruClass
+    for kind in CLASSES:
+        lc = LruClass(ctx, kind)
+        c11.check_call(_Relabel(ctx, "R18.3", only=("R11.4",)), lc)
+    info = ctx.pkg.cls(c12.PLACEHOLDER)
+    c12.r12_2(_Relabel(ctx, "R18.3"), info)
+
+
+def r18_4(ctx) -> None:
+    from . import c14
+    end = c14.r14_1(_Relabel(ctx, "R18.4"))
+    c14.r14_2(_Relabel(ctx, "R18.4"), end)
+
+
+def r18_5(ctx) -> None:
+    from . import c06
+    sub = _Relabel(ctx, "R18.5")
+    for u in real_units(ctx):
+        c06._census(sub, u)
+        c06._finally_blocks(sub, u)
+    c06._aexit_falsy(sub)
